@@ -258,6 +258,9 @@ public:
         m_fac(ArnoldiOpType(op, Bop), m_ncv),
         m_info(CompInfo::NotComputed)
     {
+        if (m_op.rows() != m_op.cols())
+            throw std::invalid_argument("the matrix operation must represent a square matrix");
+
         if (nev < 1 || nev > m_n - 1)
             throw std::invalid_argument("nev must satisfy 1 <= nev <= n - 1, n is the size of matrix");
 
@@ -277,6 +280,9 @@ public:
         m_fac(ArnoldiOpType(m_op, Bop), m_ncv),
         m_info(CompInfo::NotComputed)
     {
+        if (m_op.rows() != m_op.cols())
+            throw std::invalid_argument("the matrix operation must represent a square matrix");
+
         if (nev < 1 || nev > m_n - 1)
             throw std::invalid_argument("nev must satisfy 1 <= nev <= n - 1, n is the size of matrix");
 
